@@ -505,8 +505,9 @@ def run_request(job):
     req, eseed = job["req"], job["eseed"]
     district = bool(req["district"])
     # gaussian requests run on a larger election: with a few hundred training units two interval levels within the same
-    # percent (0.9 and 0.909) have different quantile regressions, so a cache keyed too coarsely shows (seeded change C13_E)
-    pre, cur = _election(eseed, district, n_units=(420 if req["estimator"] == "gaussian" and not district else None))
+    # percent (0.9 and 0.909) have different quantile regressions, so a cache keyed too coarsely shows (seeded change C13_E);
+    # with more than five hundred training units so have two levels that agree to two decimals (0.9 and 0.904: C13_I)
+    pre, cur = _election(eseed, district, n_units=(1300 if req["estimator"] == "gaussian" and not district else None))
     office, gut = ("H", "precinct-district") if district else ("G", "precinct")
     group = f"{req['estimator']}|{office}|{eseed}"
     rec = {"group": group, "req": req, "events": [], "tables": {}, "cells": {}, "status": "ok", "eseed": eseed}
